@@ -50,6 +50,7 @@ FIXED = ["u8", "u16", "u32", "u64", "u128", "i8", "i16", "i32", "i64", "i128", "
          "array_u16x2", "byte_array4", "tuple_u8_u16", "tuple_u64_u64_u8", "savepoint_id", "txn_with_pagination"]
 for t in FIXED:
     K["C15-F-" + t] = k("C15-F-" + t, "c15_f_" + t)
+K["C15-F-varint"] = k("C15-F-varint", "c15_f_varint_len_roundtrip", covers=3)
 K["C15-B-bytes"] = k("C15-B-bytes", "c15_b_bytes_separator_l3", "bounded", covers=2, bound="&[u8] keys of length <= 3")
 K["C15-B-optbytes"] = k("C15-B-optbytes", "c15_b_option_bytes_separator_l2", "bounded", covers=1, bound="Option<&[u8]> with payload <= 2 bytes")
 K["C15-B-str"] = k("C15-B-str", "c15_b_str_separator_l3", "bounded", covers=1, bound="&str / String keys of <= 3 bytes (all valid UTF-8 of that length)", tier="thorough")
@@ -73,6 +74,7 @@ reg = {
                   # executable functions defined in the overlay rather than extracted from /repo: rule helpers (T4) and, for
                   # now, the ASSUMED contract of alloc_lowest
                   "helpers": ["xxh3_checksum", "div_ceil_u32", "pow2_u32", "vec_reverse", "min_u8", "max_u32", "alloc_lowest"]},
+        "types_sep": {"overlay": "units/types_sep.ovl", "canaries": ["canary_types_sep"], "helpers": ["common_prefix_len"]},
     },
     "kani_files": {
         "h_header.rs": "src/tree_store/page_store/header.rs",
@@ -85,6 +87,7 @@ reg = {
         "h_savepoint.rs": "src/tree_store/page_store/savepoint.rs",
         "h_table_tree_base.rs": "src/tree_store/table_tree_base.rs",
         "h_types.rs": "src/types.rs",
+        "h_complex_types.rs": "src/complex_types.rs",
         "h_btree_base.rs": "src/tree_store/btree_base.rs",
     },
     "twins": {},
@@ -187,7 +190,12 @@ P["C11"] = {
 }
 P["C15"] = {
     "level": "proof",
-    "kani": [K["C15-F-" + t] for t in FIXED] + [K["C15-B-bytes"], K["C15-B-optbytes"], K["C15-B-str"], K["C15-B-lcp"], K["C15-B-utf8"]],
+    "verus": [{"unit": "types_sep", "functions": ["bytes_separator", "str_separator", "round_up_to_char_boundary", "lemma_lex_lcp", "lemma_lcp_prefix"]}],
+    "assumptions": ["T5: common_prefix_len(left, right) == length of the longest common prefix (stands for the iterator chain, rule R4; bounded Kani twin C15-B-lcp)",
+                    "T6: str ordering is the byte-wise lexicographic ordering of the UTF-8 encodings",
+                    "T7 (axiom_utf8_prefix): a prefix of valid UTF-8 that ends where the next byte is not 10xx_xxxx (or at the end) is valid UTF-8 (bounded Kani twin C15-B-utf8)",
+                    "rule R5 drops Cow from the two separator functions (they only ever borrow) and the debug_assert!(left < right) line, whose condition is the contract's precondition"],
+    "kani": [K["C15-F-" + t] for t in FIXED] + [K["C15-F-varint"], K["C15-B-bytes"], K["C15-B-optbytes"], K["C15-B-str"], K["C15-B-lcp"], K["C15-B-utf8"]],
     "explanation": "For every fixed-width built-in key type (all integer widths, bool, char, (), Option<fixed>, arrays and tuples of fixed, and the internal fixed-width keys) compare == value order and from_bytes(as_bytes(v)) == v for ALL pairs (loop-free over the full domain: complete proofs; totality/transitivity follow from the order embedding); separators of fixed-width types are `left`. Variable-width types: bounded harnesses.",
     "not_decided": "user-defined Key impls; uuid/chrono (optional features); variable-width composites beyond the stated bounds",
 }
